@@ -9,6 +9,14 @@ Inductive part_obs :=
 | PError
 | PCrash.
 
+Inductive hist_op :=
+| HUpdate (from : N) (changed : list (Z * list (option N))) (inactivated : list Z)
+| HVerify (on : N) (src : bytes) (height round : Z) (digests : list (Z * bytes))
+          (proofs : list (option (list (option bsig)))) (accepted : bool)
+| HHas (on : N) (ntid : Z) (present : bool).
+Arguments HVerify on%N src height%Z round%Z digests proofs accepted.
+Arguments HHas on%N ntid%Z present.
+
 (* key numbers are printed as N numerals and converted here *)
 Inductive case :=
 (* pc.Verify(decision hash, proof) *)
@@ -19,6 +27,10 @@ Inductive case :=
 | CPartSeq (vals : list (option N)) (idx : Z) (s : option bsig) (calls : list (decision * part_obs))
 (* ONE proof object (decoded, or built with NewProof + Add), Verify called once per decision *)
 | CVerifySeq (vals : list (option N)) (sigs : list (option bsig)) (calls : list (decision * bool))
+(* a history over proof-context-map versions: version 0 = m0, each HUpdate derives
+   a new version from an existing one through proofContextMap.Update; HVerify and
+   HHas query any version, with the observed answer *)
+| CPcmHist (m0 : list (Z * list (option N))) (ops : list hist_op)
 (* proofContextMap.Verify(src, height, round, digest, proofs) *)
 | CPcm (src : bytes) (height round : Z) (ctxs : list (Z * list (option N)))
        (digests : list (Z * bytes)) (proofs : list (option (list (option bsig)))) (accepted : bool).
@@ -63,8 +75,34 @@ Fixpoint all2 {A B} (f : A -> B -> bool) (a : list A) (b : list B) : bool :=
   | _, _ => false
   end.
 
+Definition kctxs (l : list (Z * list (option N))) : list (Z * list (option baddr)) :=
+  bt_ctxs (map (fun kv => (fst kv, keys (snd kv))) l).
+
+Definition hist_model_op (o : hist_op) : pcm_op :=
+  match o with
+  | HUpdate from ch inact => PUpdate (N.to_nat from) (kctxs ch) inact
+  | HVerify on src h r dg pf _ => PVerify (N.to_nat on) src h r dg pf
+  | HHas on ntid _ => PHas (N.to_nat on) ntid
+  end.
+
+Definition hist_obs (o : hist_op) : option bool :=
+  match o with
+  | HUpdate _ _ _ => None
+  | HVerify _ _ _ _ _ _ a => Some a
+  | HHas _ _ p => Some p
+  end.
+
+Definition opt_bool_eqb (a b : option bool) : bool :=
+  match a, b with
+  | None, None => true
+  | Some x, Some y => Bool.eqb x y
+  | _, _ => false
+  end.
+
 Definition check (c : case) : bool :=
   match c with
+  | CPcmHist m0 ops =>
+      all2 opt_bool_eqb (pcm_run baddr_eqb bt_recover [kctxs m0] (map hist_model_op ops)) (map hist_obs ops)
   | CPartSeq vals idx s calls =>
       all2 part_obs_ok (bt_part_session (keys vals) idx s (map fst calls)) (map snd calls)
   | CVerifySeq vals sigs calls =>
